@@ -60,6 +60,8 @@ def plan(tier, seed):
     items = [{"kind": "grid", "cert": c, "exhaustive": "full grid cert_reqs x check_hostname x anchors(option/env) x certificate x name x route"}
              for c in CERT_ISSUER]
     items.append({"kind": "ws_plain", "exhaustive": "ws:// never wrapped, for every sslopt combination"})
+    items.append({"kind": "sslver", "exhaustive": "ssl_version {PROTOCOL_TLS, TLSv1_2, TLS_CLIENT} x certificate x name x cert_reqs x check_hostname x anchors"})
+    items.append({"kind": "pairs", "exhaustive": "every relaxing option used on a first connection, then a default connection to every certificate/name in the same process"})
     n = 3000 if tier == "quick" else 40000
     per = 150 if tier == "quick" else 1000
     for s in range(0, n, per):
@@ -86,6 +88,20 @@ def expand(item, seed):
             if proxy and (host not in ("good.sim.test", "other.sim.test") or ea != "none"):
                 continue
             yield _sc(cert=cert, cert_reqs=cr, check_hostname=ch, opt_anchor=oa, env_anchor=ea, host=host, proxy=proxy)
+    elif k == "sslver":
+        for ver in ("TLS", "TLSv1_2", "TLS_CLIENT"):
+            for cert in CERT_ISSUER:
+                for host in HOSTS:
+                    for cr, ch, oa in itertools.product((None, "NONE", "REQUIRED"), (None, True, False), ("none", "ca_file")):
+                        yield _sc(cert=cert, host=host, cert_reqs=cr, check_hostname=ch, opt_anchor=oa, ssl_version=ver)
+    elif k == "pairs":
+        relaxed = [dict(cert_reqs="NONE"), dict(check_hostname=False, opt_anchor="ca_file"), dict(env_anchor="ca_file"),
+                   dict(opt_anchor="ca_file"), dict(context="noverify"), dict(server_hostname="good.sim.test", opt_anchor="ca_file")]
+        for rx in relaxed:
+            for cert in ("good", "foreign-good", "selfsigned"):
+                for host in ("good.sim.test", "other.sim.test"):
+                    yield {"steps": [_sc(cert="good", host="good.sim.test", **rx), _sc(cert=cert, host=host)], "seed": 1}
+                    yield {"steps": [_sc(cert="good", host="good.sim.test", **rx), _sc(cert=cert, host=host, opt_anchor="ca_file")], "seed": 1}
     elif k == "ws_plain":
         for cr, ch, oa, proxy in itertools.product((None, "NONE", "REQUIRED"), (None, True, False), ("none", "ca_file"),
                                                    (False, True)):
@@ -95,7 +111,7 @@ def expand(item, seed):
             yield gen(random.Random(derive_seed(seed, ID, i)))
 
 
-def gen(rng):
+def _gen_single(rng):
     sc = _sc(scheme=rng.choice(("wss", "wss", "wss", "ws")), host=rng.choice(list(HOSTS)), cert=rng.choice(list(CERT_ISSUER)),
              cert_reqs=rng.choice((None, None, "NONE", "REQUIRED")), check_hostname=rng.choice((None, None, True, False)),
              opt_anchor=rng.choice(list(ANCHORS)), env_anchor=rng.choice(("none", "none", "ca_file", "ca_dir", "foreign_file")),
@@ -106,7 +122,36 @@ def gen(rng):
         sc["server_hostname"] = rng.choice(("good.sim.test", "other.sim.test", "a.wild.sim.test"))
     if rng.random() < 0.15:
         sc["context"] = rng.choice(("default_ca", "default_sys", "noverify", "nohost_ca"))
+    elif rng.random() < 0.3:
+        sc["ssl_version"] = rng.choice(("TLS", "TLSv1_2", "TLS_CLIENT"))
     return sc
+
+
+def gen_one(rng):
+    return _gen_single(rng)
+
+
+def gen(rng):
+    if rng.random() < 0.5:
+        return _gen_single(rng)
+    # a relaxed connection first, then stricter ones: option state must not leak inside one process
+    first = _gen_single(rng)
+    first["scheme"] = "wss"
+    if rng.random() < 0.6:
+        first["cert_reqs"] = rng.choice(("NONE", "NONE", None))
+        first["check_hostname"] = rng.choice((False, None))
+        if rng.random() < 0.4 and (first["opt_anchor"] == "none" or ANCHORS[first["opt_anchor"]][0] == "file"):
+            first["env_anchor"] = "ca_file"
+    steps = [first] + [_gen_single(rng) for _ in range(rng.randrange(1, 3))]
+    for st in steps[1:]:
+        st["scheme"] = "wss"
+        if rng.random() < 0.6:
+            st["cert_reqs"] = None
+            st["check_hostname"] = None
+            st["opt_anchor"] = "none"
+            st["env_anchor"] = "none"
+            st["context"] = None
+    return {"steps": steps, "seed": rng.randrange(1 << 30)}
 
 
 def _custom_context(kind):
@@ -131,6 +176,38 @@ def _custom_context(kind):
 
 
 def run(sc, choices=None):
+    """one scenario = 1..3 successive connections in ONE process/world (option state must not leak between them)."""
+    steps = sc.get("steps")
+    if steps is None:
+        return _run_one(sc, None)
+    if not 1 <= len(steps) <= 4:
+        raise InvalidScenario("steps")
+    res = Result()
+    sigs = []
+    w = World(seed=int(sc.get("seed", 1)), step_cap=900_000)
+    with w:
+        simtls.install()
+        for i, st in enumerate(steps):
+            r = _run_one(st, w, index=i)
+            sigs.append(r.sig)
+            for k, v in r.probes.items():
+                res.probes[k] = res.probes.get(k, 0) + v
+            if r.violations:
+                for v in r.violations:
+                    v = dict(v)
+                    if i > 0:
+                        v["ctx"] = "after_other_connections/" + v["ctx"]
+                        v["detail"] = f"connection #{i} of {len(steps)} in one process: " + v["detail"]
+                    res.violations.append(v)
+                break
+    res.absorb(w, exclude_kinds=("send", "recv", "deliver", "recv_call"))
+    res.sig = repr(sigs)
+    res.nontrivial = True
+    res.probes["successive_connections"] = 1
+    return res
+
+
+def _run_one(sc, shared, index=0):
     res = Result()
     try:
         scheme, host, cert = sc["scheme"], sc["host"], sc["cert"]
@@ -145,6 +222,9 @@ def run(sc, choices=None):
         if oa != "none" and ea != "none" and ANCHORS[oa][0] != ANCHORS[ea][0]:
             raise InvalidScenario("mixed anchor kinds")
         ctxkind = sc.get("context")
+        sslver = sc.get("ssl_version")
+        if sslver not in (None, "TLS", "TLSv1_2", "TLS_CLIENT"):
+            raise InvalidScenario("ssl_version")
         sh = sc.get("server_hostname")
         if sh is not None and sh not in HOSTS:
             raise InvalidScenario("server_hostname")
@@ -156,7 +236,17 @@ def run(sc, choices=None):
     env = {}
     if ea != "none":
         env["WEBSOCKET_CLIENT_CA_BUNDLE"] = simtls.cert(ANCHORS[ea][1])
-    w = World(seed=int(sc.get("seed", 1)), step_cap=500_000, env=env)
+    import os
+    own = shared is None
+    w = World(seed=int(sc.get("seed", 1)), step_cap=500_000, env=env) if own else shared
+    if not own:
+        os.environ.pop("WEBSOCKET_CLIENT_CA_BUNDLE", None)
+        for k_, v_ in env.items():
+            os.environ[k_] = v_
+        w.net.listeners.clear()
+        del simtls.wrap_calls[:]
+    nsock0 = len(w.net.sockets)
+    nconn0 = len(w.net.conns)
     origin_peers, tls_peers, proxy_peers = [], [], []
 
     def origin(conn=None, target=None):
@@ -188,14 +278,23 @@ def run(sc, choices=None):
         sslopt["ca_certs" if ANCHORS[oa][0] == "file" else "ca_cert_path"] = simtls.cert(ANCHORS[oa][1])
     if sh is not None:
         sslopt["server_hostname"] = sh
+    if sslver is not None:
+        import warnings
+        with warnings.catch_warnings():
+            warnings.simplefilter("ignore")
+            sslopt["ssl_version"] = {"TLS": ssl.PROTOCOL_TLS, "TLSv1_2": ssl.PROTOCOL_TLSv1_2, "TLS_CLIENT": ssl.PROTOCOL_TLS_CLIENT}[sslver]
     cverify = cmatch = canchor = None
     if ctxkind:
         cobj, cverify, cmatch, canchor = _custom_context(ctxkind)
         sslopt["context"] = cobj
     outcome = None
-    with w:
+    import contextlib
+    import warnings
+    with (w if own else contextlib.nullcontext()), warnings.catch_warnings():
+        warnings.simplefilter("ignore")
         ws = w.ws
-        simtls.install()
+        if own:
+            simtls.install()
         kw = {}
         if proxy:
             kw["http_proxy_host"] = "proxy.sim.test"
@@ -221,15 +320,16 @@ def run(sc, choices=None):
                 pass
             except BaseException:  # noqa
                 pass
-        open_socks = [s.index for s in w.net.sockets if not s.closed]
-    res.absorb(w, exclude_kinds=("send", "recv", "deliver", "recv_call"))
+        open_socks = [s.index for s in w.net.sockets[nsock0:] if not s.closed]
+    if own:
+        res.absorb(w, exclude_kinds=("send", "recv", "deliver", "recv_call"))
     # ------------------------------------------------------------ independent predicate
     route = "tunnel" if proxy else "direct"
     if not tls:
         ctx = f"ws/{route}"
         if wraps:
             res.violate("ws_target_wrapped_in_tls", ctx, f"wrap_socket called for a ws:// target: {wraps[0]['server_hostname']}")
-        raw = proxy_peers[0].after_connect if proxy and proxy_peers else (w.net.conns[0].rx if w.net.conns else b"")
+        raw = proxy_peers[0].after_connect if proxy and proxy_peers else (w.net.conns[nconn0].rx if len(w.net.conns) > nconn0 else b"")
         if bytes(raw[:4]) != b"GET ":
             res.violate("ws_target_wrapped_in_tls", ctx, f"first bytes {bytes(raw[:8])!r}")
         if outcome[0] != "ok":
@@ -294,7 +394,7 @@ def run(sc, choices=None):
                         f"context verify_mode={wc['verify_mode']} check_hostname={wc['check_hostname']}, options say verify={verify} match={match}")
         if wc["server_hostname"] != name:
             res.violate("wrong_server_name", ctx, f"server_hostname {wc['server_hostname']!r}, expected {name!r}")
-    res.sig = repr((cr, ch, oa, ea, ctxkind, sh is not None, cert, host, proxy))
+    res.sig = repr((cr, ch, oa, ea, ctxkind, sh is not None, cert, host, proxy, sslver))
     res.nontrivial = True
     res.probes["cell_" + cell] = 1
     if not want_ok and outcome[0] == "exc":
@@ -309,5 +409,7 @@ def _so(sslopt):
 
 
 def sample_view(sc, r):
+    if sc.get("steps"):
+        return {"successive_connections_in_one_process": [sample_view(st, r) for st in sc["steps"]]}
     return {k: sc.get(k) for k in ("scheme", "host", "cert", "cert_reqs", "check_hostname", "opt_anchor", "env_anchor",
-                                   "context", "server_hostname", "proxy")}
+                                   "context", "server_hostname", "proxy", "ssl_version")}
